@@ -61,7 +61,10 @@ def run_check(d, pid, timeout=600):
             lines.append(l.strip()[:300])
             if "[" in l and "]" in l:
                 rules.append(l[l.index("[") + 1:l.index("]")])
-    return {"exit": r.returncode, "rules": sorted(set(rules)), "lines": lines}
+    res = {"exit": r.returncode, "rules": sorted(set(rules)), "lines": lines}
+    if any("ANALYSIS BROKEN" in l for l in lines) or (r.returncode not in (0, 1, 2)):
+        res["tail"] = (r.stdout[-1500:] + r.stderr[-2500:])
+    return res
 
 
 def with_change(kind, spec, pids):
